@@ -476,6 +476,86 @@ int main(void) {
     return errs, len(exp_recv) + len(exp_obs)
 
 
+# ---------------------------------------------------------------- overload sets a C pointer could reach by the wrong door
+STR_OVER_YAML = """\
+library: Sov
+cxx_header: sov.hpp
+options:
+  wrap_fortran: false
+declarations:
+- decl: int put(std::string s)
+- decl: int put(const char *s)
+- decl: int give(std::string s, bool flag)
+- decl: int give(bool s, bool flag)
+- decl: int take(const std::string &s)
+- decl: int take(bool s)
+- decl: int pick(const std::string *s)
+- decl: int pick(const void *s)
+"""
+STR_OVER_HPP = """#include <string>
+int put(std::string s); int put(const char *s); int give(std::string s, bool flag); int give(bool s, bool flag);
+int take(const std::string &s); int take(bool s); int pick(const std::string *s); int pick(const void *s);
+"""
+STR_OVER_CPP = A.SUBJECT_PRELUDE + """
+#include "sov.hpp"
+static int said(const char *what, int rv) { vt_txt("RECV "); vt_txt(what); vt_txt("\\n"); return rv; }
+int put(std::string s) { return said("put(string)", 10 + (int) s.size()); }
+int put(const char *s) { return said("put(char*)", 20); }
+int give(std::string s, bool flag) { return said("give(string,bool)", 30 + (int) s.size()); }
+int give(bool s, bool flag) { return said("give(bool,bool)", 40); }
+int take(const std::string &s) { return said("take(string&)", 50 + (int) s.size()); }
+int take(bool s) { return said("take(bool)", 60); }
+int pick(const std::string *s) { return said("pick(string*)", 70 + (int) s->size()); }
+int pick(const void *s) { return said("pick(void*)", 80); }
+"""
+
+
+def string_overloads_case(workdir):
+    """A std::string parameter next to an overload that a char pointer converts to more readily (const char *, bool, void *):
+    each C entry point runs the overload it is named after."""
+    import yaml
+
+    os.makedirs(workdir)
+    r, tree = gen.gen_tree(workdir, yaml.safe_load(STR_OVER_YAML), keep=True)
+    if r.status != "ok":
+        shutil.rmtree(workdir, ignore_errors=True)
+        return [("generate", "string overloads", "%s %s: %s" % (r.status, r.exc, (r.msg or "")[:300]))], 0
+    out = os.path.join(workdir, "out")
+    open(os.path.join(out, "sov.hpp"), "w").write(STR_OVER_HPP)
+    open(os.path.join(out, "subject.cpp"), "w").write(STR_OVER_CPP)
+    drv = drv_c.C_PRELUDE + '#include "wrapSov.h"\n' + r"""
+int main(void) {
+  printf("OBS put"); obs_i(SOV_put_0("ab")); obs_i(SOV_put_1("ab")); printf("\n");
+  printf("OBS give"); obs_i(SOV_give_0("abc", true)); obs_i(SOV_give_1(true, false)); printf("\n");
+  printf("OBS take"); obs_i(SOV_take_0("a")); obs_i(SOV_take_1(false)); printf("\n");
+  printf("OBS pick"); obs_i(SOV_pick_0("abcd")); obs_i(SOV_pick_1("x")); printf("\n");
+  return 0;
+}
+"""
+    open(os.path.join(out, "driver.c"), "w").write(drv)
+    exp_obs = ["OBS put 12 20", "OBS give 33 40", "OBS take 51 60", "OBS pick 74 80"]
+    exp_recv = ["RECV put(string)", "RECV put(char*)", "RECV give(string,bool)", "RECV give(bool,bool)", "RECV take(string&)", "RECV take(bool)", "RECV pick(string*)", "RECV pick(void*)"]
+    errs = []
+    try:
+        objs = build.compile_c_family(out, sorted(f for f in os.listdir(out) if f.endswith((".c", ".cpp"))), "cxx")
+        build.link(out, objs, "drv", fortran=False, cxx=True)
+    except build.BuildError as e:
+        shutil.rmtree(workdir, ignore_errors=True)
+        return [("build", "string overloads", str(e)[:900])], 0
+    rc, so, se, tr = build.run_exe(out, "drv")
+    got_obs = [l for l in so.split("\n") if l.startswith("OBS ")]
+    got_recv = [l for l in tr.split("\n") if l.startswith("RECV ")]
+    if rc != 0:
+        errs.append(("run", "string overloads", "exit %d %s" % (rc, se[-300:])))
+    for g, e in zip(got_recv + ["(missing)"] * len(exp_recv), exp_recv):
+        if g != e:
+            errs.append(("mismatch", "string overloads " + e.split()[1], "the C entry point named after %s ran %s" % (e[5:], g[5:] if g.startswith("RECV ") else g)))
+    if got_obs != exp_obs and not errs:
+        errs.append(("mismatch", "string overloads values", "observed %r, expected %r" % (got_obs, exp_obs)))
+    shutil.rmtree(workdir, ignore_errors=True)
+    return errs, len(exp_recv) + len(exp_obs)
+
+
 # regression/run/tutorial/testc.c is stale upstream (it includes wrapClass1.h, which tutorial.yaml has not produced since Class1 moved to classes.yaml)
 UPSTREAM_C = ["classes", "enum-c", "namespace", "statement", "struct-cxx", "templates", "types"]
 
@@ -578,6 +658,10 @@ def run(ctx):
         calls += n
         for kind, what, msg in errs:
             ctx.violation("%s %s [naming %s]" % (kind, what, naming), msg, {"kind": kind, "scenario": True, "naming": naming})
+    oerrs, on = isolate.call_in_child(string_overloads_case, (os.path.join(wd, "strover"),), timeout=300).value
+    calls += on
+    for kind, what, msg in oerrs:
+        ctx.violation("%s %s" % (kind, what), msg, {"kind": kind, "string_overloads": True})
     ures = isolate.pmap(upstream_c_case, [(os.path.join(wd, "up-" + n), ctx.repo, n) for n in UPSTREAM_C], W)
     ran, skipped = [], []
     for name, st, info in ures:
